@@ -9,6 +9,9 @@
 // (Check/StopCheck.v): a loop may only be stuck at an operation that the regenerated table lists as not
 // cancellable for that loop, and every parking position is in the table.
 // Part B scenarios (one per listed non-cancellable operation) are fixed cases of the same machinery.
+// Two further parts: twowriters_test.go (the two writers of the data submission watermark - block production's
+// pending-limit test and the data submission loop - on the real code with one store write held; real time) and a
+// pass of this same test built with the race detector (raceRun: short in the quick tier, long in thorough).
 package c13
 
 import (
@@ -87,6 +90,7 @@ type Case struct {
 	HangCall      string `json:"hang_call,omitempty"`           // this external call does not complete until the context it was given is done
 	BuildIsParent bool   `json:"build_ctx_is_parent,omitempty"` // NewManager / NewReaper get the context Run is later called with (cmd wiring); default: an unrelated one
 	ErrChTaken    bool   `json:"errch_taken,omitempty"`         // the one-slot errCh already holds an error nobody reads (Run has taken the stop branch)
+	TwoWriters    *TwoW  `json:"two_writers,omitempty"`         // the two writers of the data watermark, one store write of one of them held (twowriters_test.go; real time, no loops)
 	StopAtMs      int64  `json:"stop_at_ms"`
 	DeadlineMs    int64  `json:"deadline_ms"`
 }
@@ -154,6 +158,8 @@ type node struct {
 	gen    genesispkg.Genesis
 	sg     signer.Signer
 	st     store.Store
+	kv     ds.Batching
+	gate   *gateStore // two-writers cases: the store, with the writes of the submission watermarks recorded / one of them held
 	m      *block.Manager
 	reaper *block.Reaper
 	exec   *execDouble
@@ -332,7 +338,12 @@ func newNode(ctx context.Context, c *Case, rootDir string) (*node, error) {
 	n.da = newDA(c)
 	n.hb, n.db = &bcast[*types.SignedHeader]{c: c, name: "header", block: c.StallP2P}, &bcast[*types.Data]{c: c, name: "data", block: c.StallP2P}
 	n.seq = &seqDouble{c: c}
-	n.st = store.New(newKV())
+	n.kv = newKV()
+	n.st = store.New(n.kv)
+	if c.TwoWriters != nil {
+		n.gate = newGateStore(n.st)
+		n.st = n.gate
+	}
 	if c.Mode == "agg" {
 		n.gen = genesispkg.NewGenesis(chainID, c.InitialHeight, time.Now().Add(ms(c.GenesisOffset)), addr)
 		n.exec = &execDouble{c: c, start: time.Now()}
@@ -525,6 +536,9 @@ func find(ps []parked, root string) *parked {
 }
 
 func runCase(t *testing.T, c *Case, rootDir string) (out *caseOut) {
+	if c.TwoWriters != nil {
+		return runTwoWriters(t, c, rootDir)
+	}
 	out = &caseOut{}
 	defer func() {
 		// a loop that never returns, whatever the harness releases, leaves blocked goroutines behind: synctest
@@ -762,6 +776,11 @@ func (n *node) invariants(out *caseOut) {
 		}
 		if p, ok := n.metaU64(store.LastSubmittedHeaderHeightKey); ok && p != wh {
 			out.fail("watermark-not-durable", fmt.Sprintf("header watermark %d, persisted %d", wh, p))
+		}
+		// every loop has returned: nobody is inside setLastSubmittedHeight, the recorded data watermark is the
+		// in-memory one (Model/Conc.v g_wm_eq); the data watermark has two writers (submission loop, block production)
+		if p, ok := n.metaU64(block.LastSubmittedDataHeightKey); ok && p != wd {
+			out.fail("watermark-not-durable", fmt.Sprintf("data watermark %d, persisted %d", wd, p))
 		}
 	}
 	di := n.m.GetDAIncludedHeight()
@@ -1006,9 +1025,17 @@ func TestVerif(t *testing.T) {
 			t.Fatal(err)
 		}
 		jobs = append(jobs, &c)
+	} else if os.Getenv("VERIF_C13_RACE_CHILD") == "quick" {
+		// the short pass under the race detector (quick tier): see raceRun
+		jobs = append(jobs, raceScenarios()...)
+		jobs = append(jobs, twoWriterScenarios()...)
+		for i := 0; i < e.N; i++ {
+			jobs = append(jobs, genCase(e.Seed, i))
+		}
 	} else {
 		if os.Getenv("VERIF_NO_CORPUS") == "" {
 			jobs = append(jobs, scenarios()...)
+			jobs = append(jobs, twoWriterScenarios()...)
 			files, _ := filepath.Glob("../corpus/C13/*.json")
 			for _, f := range files {
 				var c Case
@@ -1019,6 +1046,10 @@ func TestVerif(t *testing.T) {
 		}
 		for i := 0; i < e.N; i++ {
 			jobs = append(jobs, genCase(e.Seed, i))
+		}
+		// the two writers of the data watermark with one store write held: 1 per 12 exploration cases
+		for i := 0; i < e.N/12; i++ {
+			jobs = append(jobs, genTwoWriters(e.Seed, i))
 		}
 	}
 	if err := checkFanout(); err != nil {
@@ -1038,7 +1069,12 @@ func TestVerif(t *testing.T) {
 		}
 		res.Evaluations++
 		res.Count("mode:" + c.Mode)
-		if c.Scenario != "" {
+		if c.TwoWriters != nil {
+			res.Count("two-writers:held-write-of-the-" + c.TwoWriters.First)
+			if c.Scenario != "" {
+				res.Count("scenario")
+			}
+		} else if c.Scenario != "" {
 			res.Count("scenario")
 		} else {
 			if c.Mode == "agg" {
@@ -1145,19 +1181,19 @@ func TestVerif(t *testing.T) {
 		}
 	}
 	if d := os.Getenv("VERIF_C13_DUMP_SCENARIOS"); d != "" { // maintenance aid: write the scenario cases as replay files
-		for _, c := range scenarios() {
+		for _, c := range append(scenarios(), twoWriterScenarios()...) {
 			b, _ := json.MarshalIndent(c, "", " ")
 			_ = os.WriteFile(filepath.Join(d, "C13-"+c.Scenario+".json"), b, 0o644)
 		}
 	}
-	if e.Tier == "thorough" && e.Replay == "" && os.Getenv("VERIF_NO_CORPUS") == "" && os.Getenv("VERIF_C13_RACE_CHILD") == "" {
-		res.Extra["race_detector"] = raceRun(e, rootDir, res)
+	if e.Replay == "" && os.Getenv("VERIF_NO_CORPUS") == "" && os.Getenv("VERIF_C13_RACE_CHILD") == "" {
+		res.Extra["race_detector"] = raceRun(e, rootDir, res, e.Tier != "thorough")
 	}
 	if len(scen) > 0 {
 		res.Extra["part_B_scenarios"] = scen
 	}
 	res.Distinct = len(distinct)
-	res.Rule = "the node's loop fan-out as in FullNode.Run (one-slot errCh, five loops per mode, select on errCh / parent context, wg.Wait; compared with node/full.go on every run), real block.Manager / Reaper / store, unmodified loops, in a synctest bubble; the node is constructed with one context and run with another (or, 50% of the in-flight cases, the same, as cmd does), Run derives its own; doubles: execution layer (per-call delay, cancellation lag, may ignore its context, may fail from a height on; in 15% of the cases one external call - any of the 12 the loops make - blocks until the context it was given is done), FIFO sequencer, DA layer (delays, every k-th call fails), broadcasters, P2P stores; aggregator cases (55%): genesis 0..5 s in the past or 0.1..4.1 s in the future, lazy 30%, initial height 1 or 5, pending limit 0/2/5, mempool 0/150/700 ms, DA fast/slow; full-node cases (45%): the proposer's chain of 2..8 blocks made by a real aggregator Manager and submitted with its own code, delivered by DA, P2P or both; stop instant 0, <50 ms or uniform in 0..12 s; verdict 1 s (virtual) after the stop request; plus one fixed scenario per operation the table listed as not cancellable before the repairs (they must now halt) and one 'call in flight at the stop instant' scenario per external call of each loop (16); non-trivial = at least one block committed; distinct = distinct (mode, lazy, genesis sign, parking positions, stuck positions)"
+	res.Rule = "the node's loop fan-out as in FullNode.Run (one-slot errCh, five loops per mode, select on errCh / parent context, wg.Wait; compared with node/full.go on every run), real block.Manager / Reaper / store, unmodified loops, in a synctest bubble; the node is constructed with one context and run with another (or, 50% of the in-flight cases, the same, as cmd does), Run derives its own; doubles: execution layer (per-call delay, cancellation lag, may ignore its context, may fail from a height on; in 15% of the cases one external call - any of the 12 the loops make - blocks until the context it was given is done), FIFO sequencer, DA layer (delays, every k-th call fails), broadcasters, P2P stores; aggregator cases (55%): genesis 0..5 s in the past or 0.1..4.1 s in the future, lazy 30%, initial height 1 or 5, pending limit 0/2/5, mempool 0/150/700 ms, DA fast/slow; full-node cases (45%): the proposer's chain of 2..8 blocks made by a real aggregator Manager and submitted with its own code, delivered by DA, P2P or both; stop instant 0, <50 ms or uniform in 0..12 s; verdict 1 s (virtual) after the stop request; plus one fixed scenario per operation the table listed as not cancellable before the repairs (they must now halt) and one 'call in flight at the stop instant' scenario per external call of each loop (16); plus the two writers of the data submission watermark (block production's pending-limit test -> numWaitingData stepping over empty data; one iteration of the data submission loop) called as their loops call them on the real Manager and store, with ONE chosen write of the watermark held in the store wrapper while the other writer runs (5 fixed cases + 1 generated per 12 exploration cases: 0..3 submitted blocks, 1..3 + 1..2 empty / non-empty blocks above the watermark, which writer and which of its writes is held; pending limit = blocks above the watermark), oracle: values written under the watermark key never decrease, recorded = in-memory at rest, a Manager restarted on the same store re-submits nothing the DA layer accepted; plus a pass of the same binary under the race detector (quick: 8 aggregator scenarios with both submission loops in the same DA tick, the two-writers cases, 24 generated cases); non-trivial = at least one block committed; distinct = distinct (mode, lazy, genesis sign, parking positions, stuck positions)"
 	sort.Strings(dt.defs)
 	res.Cases = len(cases)
 	header := "From Coq Require Import String NArith List Bool.\nFrom Verif Require Import Model.StopProto gen.BlockPoints Check.StopCheck."
@@ -1185,16 +1221,53 @@ func TestVerif(t *testing.T) {
 	}
 }
 
-// raceRun (thorough tier): the same test, built with the race detector, on the scenarios and 150 generated cases.
-// Evidence, not proof: the detector sees only the interleavings that happen to occur.
-func raceRun(e *vgen.Env, rootDir string, res *vgen.Result) map[string]interface{} {
-	info := map[string]interface{}{"label": "supporting exploration only - absence of reports is not a proof of race freedom"}
-	bin := filepath.Join(rootDir, "c13.race.test")
-	args := []string{"test", "-race", "-c", "-tags", "verif"}
-	if o := os.Getenv("VERIF_OVERLAY"); o != "" {
-		args = append(args, "-overlay", o)
+// raceScenarios: aggregator cases in which HeaderSubmissionLoop and DataSubmissionLoop are both inside submitToDA
+// in the same DA tick (the mempool is never empty, so every block carries transactions and both loops have
+// something pending whenever the DA ticker fires; both tickers have the same period and start together), with
+// and without DA failures (the gas-price escalation path), a pending limit (block production writes the data
+// watermark too), lazy mode, a slow DA layer; block production, reaper and DA-includer run next to them.
+func raceScenarios() []*Case {
+	mk := func(name string, f func(c *Case)) *Case {
+		c := &Case{Scenario: "race-" + name, Mode: "agg", InitialHeight: 1, GenesisOffset: -1000, BlockTimeMs: 200, DABlockTimeMs: 300,
+			TxEveryMs: 150, StopAtMs: 5000, DeadlineMs: 1000}
+		f(c)
+		return c
 	}
-	args = append(args, "-o", bin, ".")
+	return []*Case{
+		mk("both-submission-loops", func(c *Case) {}),
+		mk("both-submission-loops-da-fails", func(c *Case) { c.DAFailEvery = 2 }),
+		mk("both-submission-loops-da-fails-3", func(c *Case) { c.DAFailEvery, c.DABlockTimeMs = 3, 1000 }),
+		mk("both-submission-loops-slow-da", func(c *Case) { c.DASubmitDelayMs, c.StopAtMs = 100, 6000 }),
+		mk("both-submission-loops-limit", func(c *Case) { c.MaxPending, c.TxEveryMs, c.DABlockTimeMs = 2, 700, 1000 }),
+		mk("both-submission-loops-limit-5", func(c *Case) { c.MaxPending, c.DASubmitDelayMs = 5, 1500 }),
+		mk("both-submission-loops-lazy", func(c *Case) { c.Lazy, c.LazyIntervalMs = true, 1000 }),
+		mk("both-submission-loops-initial-height-5", func(c *Case) { c.InitialHeight, c.BlockTimeMs = 5, 500 }),
+	}
+}
+
+// raceRun: the same test binary built with the race detector (`go test -race -c`, cgo), run as a child process.
+// Thorough tier: the scenarios and 150 generated cases.  Quick tier: a SHORT pass - raceScenarios, the
+// two-writers cases and 24 generated cases (about 3 s plus the build: 3 s with a warm Go build cache, 20 s cold).
+// The binary is kept as .build/c13.race.test (the Go build cache makes a rebuild with unchanged sources a relink).
+// Evidence, not proof: the detector sees only the interleavings that happen to occur.
+func raceRun(e *vgen.Env, rootDir string, res *vgen.Result, quick bool) map[string]interface{} {
+	info := map[string]interface{}{"label": "supporting exploration only - absence of reports is not a proof of race freedom"}
+	t0 := time.Now()
+	build := rootDir
+	if r := os.Getenv("VERIF_ROOT"); r != "" {
+		if err := os.MkdirAll(filepath.Join(r, ".build"), 0o755); err == nil {
+			build = filepath.Join(r, ".build")
+		}
+	}
+	tmp := filepath.Join(build, fmt.Sprintf("c13.race.%d.test", os.Getpid()))
+	defer os.Remove(tmp)
+	args := []string{"test", "-race", "-c", "-tags", "verif"}
+	bin := filepath.Join(build, "c13.race.test")
+	if o := os.Getenv("VERIF_OVERLAY"); o != "" { // bin/seedtest: a binary of patched sources is not the cached one
+		args = append(args, "-overlay", o)
+		bin = tmp
+	}
+	args = append(args, "-o", tmp, ".")
 	cmd := exec.Command("go1.26", args...)
 	cmd.Env = append(os.Environ(), "CGO_ENABLED=1", "GOFLAGS=-mod=mod", "GOPROXY=off", "GOTOOLCHAIN=local")
 	if b, err := cmd.CombinedOutput(); err != nil {
@@ -1202,29 +1275,48 @@ func raceRun(e *vgen.Env, rootDir string, res *vgen.Result) map[string]interface
 		info["why"] = fmt.Sprintf("%v: %s", err, tail(string(b), 600))
 		return info
 	}
+	if bin != tmp {
+		if err := os.Rename(tmp, bin); err != nil {
+			bin = tmp
+		}
+	}
 	info["built"] = true
+	info["build_s"] = time.Since(t0).Seconds()
 	out := filepath.Join(rootDir, "race-out")
 	_ = os.MkdirAll(out, 0o755)
+	mode, n := "thorough", 150
+	if quick {
+		mode, n = "quick", 24
+	}
+	info["pass"] = mode
 	run := exec.Command(bin, "-test.run", "TestVerif", "-test.timeout", "0")
-	run.Env = append(os.Environ(), "VERIF_C13_RACE_CHILD=1", "VERIF_TIER=quick", "VERIF_N=150", "VERIF_OUT="+out, fmt.Sprintf("VERIF_SEED=%d", e.Seed+31), "GORACE=halt_on_error=0")
+	run.Env = append(os.Environ(), "VERIF_C13_RACE_CHILD="+mode, "VERIF_TIER=quick", fmt.Sprintf("VERIF_N=%d", n), "VERIF_OUT="+out, fmt.Sprintf("VERIF_SEED=%d", e.Seed+31), "GORACE=halt_on_error=0")
 	b, err := run.CombinedOutput()
-	n := strings.Count(string(b), "WARNING: DATA RACE")
-	info["races_reported"] = n
+	nr := strings.Count(string(b), "WARNING: DATA RACE")
+	info["races_reported"] = nr
 	var child struct {
 		Evaluations int `json:"evaluations"`
+		Violations  []struct {
+			Signature string `json:"signature"`
+		} `json:"violations"`
 	}
 	if rb, rerr := os.ReadFile(filepath.Join(out, "result.json")); rerr == nil {
 		_ = json.Unmarshal(rb, &child)
 	}
 	info["cases"] = child.Evaluations
-	if n > 0 {
+	info["wall_s"] = time.Since(t0).Seconds()
+	how := "cd harness/c13 && CGO_ENABLED=1 go1.26 test -race -tags verif -run TestVerif ."
+	if quick {
+		how = "cd harness/c13 && VERIF_C13_RACE_CHILD=quick VERIF_N=24 CGO_ENABLED=1 go1.26 test -race -tags verif -run TestVerif ."
+	}
+	if nr > 0 {
 		i := strings.Index(string(b), "WARNING: DATA RACE")
 		rep := string(b)[i:]
 		if len(rep) > 3000 {
 			rep = rep[:3000]
 		}
 		res.Violations = append(res.Violations, vgen.Violation{Signature: "data-race-detected", What: "the race detector reported a data race between the background loops", Case: -1,
-			Replay: map[string]interface{}{"seed": e.Seed + 31, "n": 150, "report": rep, "how": "cd harness/c13 && CGO_ENABLED=1 go1.26 test -race -tags verif -run TestVerif ."}})
+			Replay: map[string]interface{}{"seed": e.Seed + 31, "n": n, "pass": mode, "report": rep, "how": how}})
 	} else if err != nil && child.Evaluations == 0 {
 		info["why"] = fmt.Sprintf("race build did not run: %v: %s", err, tail(string(b), 600))
 	}
